@@ -480,7 +480,17 @@ PostRunEarly ==
   /\ pc' = "done" /\ result' = "failed"
   /\ UNCHANGED <<prog, wtext, nlive, cfgv, px, g, i, unmatched, logged, skipped, excInfo, failedPart, executed, imported, nsBound, capture>>
 
-Next == RunStart \/ Choose \/ Stop \/ PartDirectives \/ SkipByState \/ SkipNoCode \/ Proceed \/ PreImport
+\* every terminal state is printed once for the replay harness when asked to (used by the -simulate runs; the
+\* exhaustive runs read the terminal states from the dump)
+Report ==
+  /\ pc \in {"done", "raised"} /\ "Emit" \in Deviation
+  /\ PrintT("XDV " \o ToString([prog |-> prog, wtext |-> wtext, nlive |-> nlive, cfgv |-> cfgv, pc |-> pc, g |-> g, unmatched |-> unmatched,
+                                  logged |-> logged, skipped |-> skipped, excInfo |-> excInfo, failedPart |-> failedPart,
+                                  executed |-> executed, result |-> result]))
+  /\ pc' = "reported"
+  /\ UNCHANGED <<prog, wtext, nlive, cfgv, px, g, i, unmatched, logged, skipped, excInfo, failedPart, executed, imported, nsBound, capture, result>>
+
+Next == Report \/ RunStart \/ Choose \/ Stop \/ PartDirectives \/ SkipByState \/ SkipNoCode \/ Proceed \/ PreImport
         \/ Compile \/ ExecPart \/ TailChoice \/ DevTail \/ Finish \/ PostRunEarly
 Spec == Init /\ [][Next]_vars
 
